@@ -1,11 +1,18 @@
 """C03 - schedules never over-allocate a resource.  Theorems: Props_C03.v (ledger invariant of both
-scheduler models, reflection of the oracle).  Tie: the verified oracle c03_b (+ report totals,
-resources present, default resource) evaluated on the rows the implementation returns."""
+scheduler models, reflection of the oracle; model of the usage report, of the resource table of a run and of
+the default resource).  Tie: the verified oracle c03_b (+ report totals, resources present, default resource)
+evaluated on the rows the implementation returns; a second pass (Sched/C03ReportCheck.check_report, meaning
+proved in C03_report_checker_meaning) evaluates the report / resources clauses one by one on every returned
+schedule: per-day totals = sums of the rows, Schedule.resources = exactly the supplied and the named
+resources, every other resource's tabulated capacity = the default calendar read from the source."""
+import time
+
 from harness.props import sched_common as sc
+from harness.common import z, coq_list, coq_bool
 
 ID = 'C03'
 PROPS_FILE = 'Props/Props_C03.v'
-EXTRA_TARGETS = ['Sched/Case.vo', 'Sched/CaseOff.vo']
+EXTRA_TARGETS = ['Sched/Case.vo', 'Sched/CaseOff.vo', 'Sched/C03ReportCheck.vo']
 CONST_PARTS = ('sched',)
 FAIL = sc.BITS['c03']
 MISMATCH = sc.BITS['model_oracle']
@@ -25,9 +32,73 @@ def extra(ctx, case, out, code, desc):
                     'a resource reports a capacity its calendar does not offer: %s' % out['resource_differs_from_calendar'][0], desc)
 
 
+REP_HEADER = """From PJ Require Import Base.Prelude Sched.Model Sched.Check Sched.Oracles Sched.C03Report Sched.C03ReportCheck.
+Open Scope Z_scope.
+"""
+
+REPORT_CODES = {
+    1: ('report-totals', 'ResourceUsageReport.reserved(resource, day) is not the sum of the units of its rows on that resource and day'),
+    2: ('resource-missing', 'a resource that was supplied or is named by a task (summary tasks and milestones included) is missing from Schedule.resources'),
+    3: ('resource-extra', 'Schedule.resources holds a resource that was neither supplied nor named by a task'),
+    4: ('default-resource', 'a resource that was not supplied is not the default Monday-Friday 8-unit resource (its tabulated capacity '
+                            'differs from the default calendar read from calendar.DEFAULT_CALENDAR)'),
+}
+
+
+def emit_repcase(case, out):
+    obs = out['obs']
+    K = out.get('K', 8)
+    # per-day totals are float sums: exact on the dyadic grid, within the tolerance of the off-grid stream otherwise
+    eps = (K * 32 // 10 ** 9 + 1) if case.get('offgrid') else 0
+    return '(Build_repcase %s %s %s %s %s %s %s %s)' % (
+        coq_list([sc.emit_itask(k) for k in out['w']]), coq_list([sc.emit_rescal(r) for r in out['rs']]),
+        coq_list([coq_bool(b) for b in out['supplied']]), z(K), z(eps),
+        coq_list(['(%s, %s, %s, %s)' % (sc.nat(r[0]), z(r[1]), sc.nat(r[2]), z(r[3])) for r in obs['rows']]),
+        coq_list(['(%s, %s, %s)' % (sc.nat(a), z(b), z(c)) for a, b, c in obs['reserved']]),
+        sc.natlist(obs['resources']))
+
+
+def check_reports(ctx, kept, codes):
+    """second pass: the report / resources clauses, clause by clause, on every schedule the implementation returned"""
+    skip = sc.BITS['illformed'] | sc.BITS['foreign_rows']
+    pairs = [(c, o) for (c, o), code in zip(kept, codes) if o.get('outcome') == 0 and o.get('obs') and not code & skip]
+    t0 = time.time()
+    rc = ctx.coq_codes('c03rep', REP_HEADER, 'repcase', [emit_repcase(c, o) for c, o in pairs], 'check_report', shard=25)
+    ctx.coverage['report_pass_wall_s'] = round(time.time() - t0, 1)
+    hist = {}
+    for (case, out), code in zip(pairs, rc):
+        hist[code] = hist.get(code, 0) + 1
+        if code:
+            sig, what = REPORT_CODES.get(code, ('report-code-%d' % code, 'check_report = %d' % code))
+            ctx.failure('C03/%s/%s' % (case['dir'], sig), what + ' (check_report = %d)' % code,
+                        {'case': case, 'abstract_input': out['w'], 'outcome': out['outcome'], 'observed': out.get('obs'),
+                         'supplied': out['supplied'], 'resources_tabulated': out['rs'], 'report_code': code})
+    named = [len(set(k['res'] for k in o['w'] if not k['ext'])) for _, o in pairs]
+    ctx.coverage['report_pass_evaluated'] = len(pairs)
+    ctx.coverage['report_pass_codes'] = {str(k): v for k, v in sorted(hist.items())}
+    ctx.coverage['report_pass_cases_with_default_resources'] = sum(1 for _, o in pairs if not all(o['supplied']))
+    ctx.coverage['report_pass_cases_resource_named_by_summary_or_milestone_only'] = sum(
+        1 for _, o in pairs if set(k['res'] for k in o['w'] if not k['ext'])
+        - set(k['res'] for k in o['w'] if not k['ext'] and not k['children'] and not k['milestone']))
+    ctx.coverage['report_pass_max_resources_named'] = max(named) if named else 0
+
+
 def run(ctx):
-    sc.run_property(ctx, ID, FAIL, MISMATCH, extra=extra, offgrid_fail=sc.BITS['c03'])
+    kept, codes = sc.run_property(ctx, ID, FAIL, MISMATCH, extra=extra, offgrid_fail=sc.BITS['c03'])
+    check_reports(ctx, kept, codes)
+    ctx.assumptions += [
+        'C03 report pass: Schedule.resources is observed as the set of numbers of the resource names that some member task '
+        'names (the runner numbers only those); a supplied resource that no task names is not observed, so code 3 '
+        '(resource-extra) can only fire on a number outside the named ones',
+        'C03 default resource: the capacity of a resource that was not supplied is compared with default_cal on the tabulated '
+        'window and the weekly patterns around it (C03_default_tabulation: then on every day); default_cal is proved to be '
+        'built from gen.Consts.default_weekdays / default_units, which constparts/sched.py reads from the source (fail-closed)',
+    ]
 
 
 def replay(ctx, rep):
     sc.replay_generic(ctx, rep, FAIL, MISMATCH, ID)
+    outs, kept, codes = sc.evaluate(ctx, [rep['case']['case']], jobs=1)
+    if kept:
+        check_reports(ctx, kept, codes)
+        print('replay: report pass codes %s' % ctx.coverage.get('report_pass_codes'))
